@@ -134,7 +134,7 @@ def run(ctx):
             c["res"]["v"]["list"][-1][3] ^= 1
             return c
         return None
-    core.binding_selfcheck(ctx, MODULE, [e for e in events if e["id"] not in rj][500:], mutate=mut)
+    core.binding_selfcheck(ctx, MODULE, [e for e in events if e["id"] not in rj and ctx.keys[e["id"]][0] in ("list", "rand")][200:], mutate=mut)
     ctx.exhaustive = not ctx.quick
     return ctx.finish(
         "model_checking",
